@@ -488,9 +488,9 @@ def run_case(c):
         import traceback
         tb = traceback.format_exc()
         bad_blocks = []
-        if c.get("a2class") and "generalized_gates/uc.py" in tb and "_dec_ucg" in tb and "not unitary" in str(e):
+        if "generalized_gates/uc.py" in tb and "_dec_ucg" in tb and "not unitary" in str(e):
             _classify_raise(node, bad_blocks)      # every 2x2 block qclib's Lemma 2 hands to UCGate is unitary to 1e-9?
-        if c.get("a2class") and "generalized_gates/uc.py" in tb and "_dec_ucg" in tb and "not unitary" in str(e) and not bad_blocks:
+        if "generalized_gates/uc.py" in tb and "_dec_ucg" in tb and "not unitary" in str(e) and not bad_blocks:
             # qiskit's UCGate kernel rejecting its own 2x2 factors inside isometry 'ccd' on columns with entries of 1e-9 .. 1e-17
             # (K-C03-2 for isometry.decompose): reported under its own key
             res["counts"].append("ucgate-kernel:exact preparation of a factor with a light tail")
@@ -598,7 +598,8 @@ def run_case(c):
         res["counts"].append("cx:compared")
         res["checks"].append((case_key("cx", c), cb <= cl, f"BAA circuit {cb} cx > LowRankInitialize {cl} cx "
                               f"(plan saved {node.total_saved_cnots})", True, dict(rep, cx_baa=cb, cx_lowrank=cl)))
-    if c.get("a2class"):
+    if gate is not None and hasattr(gate, "_define_initialize"):
+        # every family (the classification is strict: the error must vanish with the A.2 pass bypassed)
         _dv_classify_a2(c, gate, v, tol, l_eff, res, rep)
     return res
 
